@@ -35,7 +35,7 @@ def alphabet(c, full=True, copyable=True):
 
 
 def exhaustive(variant, caps, depth, full):
-    copyable = variant in "CT"
+    copyable = variant in "CTP"
     for c in caps:
         A = alphabet(c, full, copyable)
         pre = "%s n,0,%d %s" % (variant, c, "nl,1,12" if copyable else "n,1,2 eb,1,1 eb,1,2")
@@ -53,10 +53,42 @@ def small_alphabet_cases(variant, caps, depth):
             yield pre + " " + " ".join(s)
 
 
+def ctor_cases(variant, caps, faults=False):
+    """the public constructor fixed_vector(capacity, iterable) with iterables of length 0..capacity+3 from every source
+    kind (std::vector, std::list, std::array, std::initializer_list, another fixed_vector), into an empty slot and over
+    an existing object; and range insert / push_back from a single-pass input iterator at every position"""
+    for c in caps:
+        for L in range(0, c + 4):
+            xs = lst(range(1, L + 1))
+            kinds = ["nf,0,%d,%s" % (c, xs), "nfl,0,%d,%s" % (c, xs)] + (["nfa,0,%d,%s" % (c, xs)] if L <= 6 else []) + \
+                    (["nfi,0,%d,%s" % (c, xs)] if L <= 5 else [])
+            plans = range(L + 1) if faults else [None]
+            for k in kinds:
+                for pl in plans:
+                    kk = k if pl is None else "%s!%d" % (k, pl)
+                    yield "%s %s eb,0,9 er,0,0" % (variant, kk)
+                    yield "%s n,0,2 eb,0,1 %s eb,0,9" % (variant, kk)
+            if L <= 5:
+                for pl in plans:
+                    kk = "nfv,0,%d,1" % c if pl is None else "nfv,0,%d,1!%d" % (c, pl)
+                    yield "%s nl,1,%s %s eb,0,9 er,1,0 at,0,0" % (variant, xs, kk)
+                    yield "%s nl,1,%s n,0,1 eb,0,1 %s po,0" % (variant, xs, kk)
+        for n in range(c + 1):
+            pre = "%s nf,0,%d,%s" % (variant, c, lst(range(1, n + 1)))
+            for L in range(0, 4):
+                ys = lst(range(6, 6 + L))
+                plans = range(L + 1) if faults else [None]
+                for pl in plans:
+                    sfx = "" if pl is None else "!%d" % pl
+                    yield "%s prs,0,%s%s eb,0,9" % (pre, ys, sfx)
+                    for pos in range(c + 1):
+                        yield "%s irs,0,%d,%s%s eb,0,9" % (pre, pos, ys, sfx)
+
+
 def before_begin_cases(variant, caps):
     """erase / emplace / range insert at begin()-1 and begin()-2 (for an empty vector also end()-1, end()-2) from every state
     that two operations of the (reduced) alphabet reach, followed by two ordinary operations"""
-    copyable = variant in "CT"
+    copyable = variant in "CTP"
     B = ["erb,0,1", "erb,0,2", "emb,0,1,7", "emb,0,2,7"] + (["irb,0,1,7", "irb,0,2,78", "irb,0,1,_"] if copyable else [])
     for c in caps:
         A = alphabet(c, False, copyable)
@@ -132,7 +164,16 @@ class Ref:
         i = a[0]
         if name == "n":
             o[i] = dict(cap=a[1], l=[], mf=False); return "D"
-        if name == "nf":
+        if name == "nfv":
+            j = a[2]
+            if i == j or o[j] is None:
+                return "S"
+            if o[j]["mf"]:
+                return "K"
+            if len(o[j]["l"]) <= a[1]:
+                o[i] = dict(cap=a[1], l=list(o[j]["l"]), mf=False); return "D"
+            o[i] = None; return "R"
+        if name in ("nf", "nfl", "nfa", "nfi"):
             if len(xs) <= a[1]:
                 o[i] = dict(cap=a[1], l=list(xs), mf=False); return "D"
             o[i] = None; return "R"
@@ -217,8 +258,8 @@ class Ref:
             w = src[: c - pos]
             l[pos:pos + len(w)] = w
             return "D" if len(src) <= c - pos else "R"
-        if name in ("ir", "il", "pr"):
-            pos = len(l) if name == "pr" else a[1]
+        if name in ("ir", "il", "pr", "irs", "prs"):
+            pos = len(l) if name in ("pr", "prs") else a[1]
             if pos > c:
                 return "NA"
             if pos > len(l):
@@ -238,12 +279,12 @@ def fmt(name, a, xs=None, plan=None):
     return s
 
 
-LISTY = ("nf", "nl", "la", "ir", "il", "pr", "irb")
+LISTY = ("nf", "nfl", "nfa", "nfi", "nl", "la", "ir", "irs", "il", "pr", "prs", "irb")
 
 
 def random_case(rng, length, variant=None, malformed=0.03):
-    variant = variant or rng.choice("CCCMTTU")
-    copyable = variant in "CT"
+    variant = variant or rng.choice("CCCMTTUPP")
+    copyable = variant in "CTP"
     throwing = variant in "TU"
     ref = Ref()
     ops = []
@@ -255,29 +296,32 @@ def random_case(rng, length, variant=None, malformed=0.03):
         xs = [rng.randint(1, 9) for _ in range(rng.choice([0, 1, 1, 2, 2, 3, 4, 5]))]
         if bad:
             name = rng.choice(["n", "nf", "nl", "cp", "mv", "as", "ma", "la", "at", "get", "em", "eb", "in", "im", "pb", "ir", "il", "pr", "po", "er", "de",
-                               "ea", "ba", "ia", "pa", "ebd", "emd", "erb", "emb", "irb"])
+                               "ea", "ba", "ia", "pa", "ebd", "emd", "erb", "emb", "irb", "nfl", "nfa", "nfi", "nfv", "irs", "prs"])
         elif st is None or (st["mf"] and rng.random() < 0.8):
             # (re)create / assign
-            cands = ["n"] + (["nf", "nl", "cp"] if copyable else []) + ["mv"]
+            cands = ["n"] + (["nf", "nfl", "nfa", "nfi", "nfv", "nl", "cp"] if copyable else []) + ["mv"]
             if st is not None:
                 cands += ["ma"] + (["as", "la"] if copyable else [])
             name = rng.choice(cands)
         else:
             cands = ["eb"] * 4 + ["im", "em", "em", "po", "er", "er", "at", "get", "mv", "ma", "n", "de", "ebd", "ebd", "emd", "erb", "emb"] + \
                     (["in", "pb", "pr", "pr", "ir", "il", "cp", "as", "la", "nf", "nl",
-                      "ea", "ea", "ea", "ba", "ia", "pa", "irb"] if copyable else [])
+                      "ea", "ea", "ea", "ba", "ia", "pa", "irb", "nfl", "nfa", "nfi", "nfv", "irs", "prs"] if copyable else [])
             name = rng.choice(cands)
         size = len(st["l"]) if st else 0
         cap = st["cap"] if st else 0
         if name == "n":
             a = [i, rng.choice([0, 1, 1, 2, 2, 3, 3, 4, 5])]
-        elif name == "nf":
+        elif name == "nfv":
+            others = [j for j in range(NPOOL) if j != i and ref.live(j)]
+            a = [i, rng.choice([0, 1, 2, 3, 4, 5]), rng.choice(others) if others and not bad else rng.randrange(NPOOL)]
+        elif name in ("nf", "nfl", "nfa", "nfi"):
             a = [i, rng.choice([0, 1, 2, 3, 4, 5])]
             if not bad and rng.random() < 0.8:
                 xs = xs[: a[1]]
-        elif name in ("nl", "la", "pr", "po", "de", "ebd"):
+        elif name in ("nl", "la", "pr", "prs", "po", "de", "ebd"):
             a = [i]
-            if name == "pr" and not bad and rng.random() < 0.7:
+            if name in ("pr", "prs") and not bad and rng.random() < 0.7:
                 xs = xs[: max(0, cap - size)]
         elif name in ("cp", "mv", "as", "ma"):
             others = [j for j in range(NPOOL) if j != i and ref.live(j)]
@@ -289,7 +333,7 @@ def random_case(rng, length, variant=None, malformed=0.03):
             a = [i, rng.randint(0, size) if rng.random() < 0.8 else rng.randint(0, cap + 1), val]
         elif name in ("eb", "in", "im", "pb"):
             a = [i, val]
-        elif name in ("ir", "il"):
+        elif name in ("ir", "il", "irs"):
             pos = rng.randint(0, size) if rng.random() < 0.8 else rng.randint(0, cap + 1)
             a = [i, pos]
             if not bad and rng.random() < 0.7:
@@ -323,11 +367,11 @@ def random_case(rng, length, variant=None, malformed=0.03):
         has_list = name in LISTY
         ops.append(fmt(name, a, xs if has_list else None, plan))
         # follow the reference only when the step is certainly executed without fault; otherwise stop tracking precisely
-        if plan is None and all(x < NPOOL for x in a[:1]) and (copyable or name not in ("nf", "nl", "cp", "as", "la", "in", "pb", "ir", "il", "pr", "ea", "ba", "ia", "pa", "sr", "ps", "irb")) \
-                and not (name in ("cp", "mv", "as", "ma") and a[1] >= NPOOL) and not (name in ("nl", "la", "il") and len(xs) > 5) \
+        if plan is None and all(x < NPOOL for x in a[:1]) and (copyable or name not in ("nf", "nl", "cp", "as", "la", "in", "pb", "ir", "il", "pr", "ea", "ba", "ia", "pa", "sr", "ps", "irb", "nfl", "nfa", "nfi", "nfv", "irs", "prs")) \
+                and not (name in ("cp", "mv", "as", "ma") and a[1] >= NPOOL) and not (name in ("nl", "la", "il", "nfi") and len(xs) > 5) and not (name == "nfv" and a[2] >= NPOOL) \
                 and not (name == "get" and a[1] > 5):
             ref.step(name, a, xs)
-        elif plan is not None and a[0] < NPOOL and name in ("nf", "nl", "cp"):
+        elif plan is not None and a[0] < NPOOL and name in ("nf", "nfl", "nfa", "nfi", "nfv", "nl", "cp"):
             ref.o[a[0]] = None  # may or may not exist now; treat as absent for generation purposes
     return variant + " " + " ".join(ops)
 
@@ -349,6 +393,8 @@ def malformed_cases():
     yield "C n,0,2 eb,0,1 ma,0,0 eb,0,2 at,0,0 as,0,0 eb,0,2 as,0,0 ea,0,0,0"
     yield "C erb,0,1 emb,0,1,1 irb,0,1,1 ebd,0 emd,0,0 n,0,1 erb,0,0 erb,0,5 emb,0,0,1 irb,0,9,1 emd,0,2 ebd,0 ebd,0 erb,3,1 mv,1,0 erb,0,1 ebd,0"
     yield "M n,0,1 irb,0,1,1 erb,0,1 emb,0,4,1 ebd,0 emd,0,0"
+    yield "P nfa,0,9,1234567 nfi,0,9,123456 nfv,0,1,0 nfv,0,1,1 nfv,3,1,0 n,0,1 eb,0,1!0 irs,0,2,1 nfl,0,0,_ nfv,1,0,0 mv,2,0 nfv,1,3,0"
+    yield "M nfl,0,1,1 nfa,0,1,1 nfi,0,1,1 n,0,1 nfv,1,1,0 irs,0,0,1 prs,0,1"
 
 
 class VecCheck(Check):
@@ -408,5 +454,5 @@ def self_test(n=300, seed=7):
     rng = random.Random(seed)
     for _ in range(n):
         c = random_case(rng, 20)
-        assert re.fullmatch(r"[CMTU]( [a-z]+(,[0-9_]+)+(![0-9]+)?)*", c), c
+        assert re.fullmatch(r"[CMTUP]( [a-z]+(,[0-9_]+)+(![0-9]+)?)*", c), c
     return True
